@@ -668,7 +668,7 @@ func ruleProcPhases(c *Ctx) []Obligation {
 	for _, d := range devs {
 		eachInstr(proc, func(in ssa.Instruction) {
 			mu, okm := in.(*ssa.MapUpdate)
-			if !okm || !isTrueConst(mu.Value) {
+			if !okm || !isSetInsert(mu) {
 				return
 			}
 			if _, isMake := mu.Map.(*ssa.MakeMap); !isMake {
@@ -791,4 +791,19 @@ func ruleNsRoot(c *Ctx) []Obligation {
 		return []Obligation{ok(R, con, c.Pos(ns.Pos()), "if root.Kind() == \"submodule\" { root = Modules[root.BelongsTo.Name] }")}
 	}
 	return []Obligation{bad(R, con, c.Pos(ns.Pos()), "content written in a submodule would report an empty namespace")}
+}
+
+// isSetInsert: m[k] = true for a bool-valued map, or m[k] = struct{}{} for a set of empty structs.
+func isSetInsert(mu *ssa.MapUpdate) bool {
+	mt, isM := mu.Map.Type().Underlying().(*types.Map)
+	if !isM {
+		return false
+	}
+	if b, isB := mt.Elem().Underlying().(*types.Basic); isB && b.Kind() == types.Bool {
+		return isTrueConst(mu.Value)
+	}
+	if st, isS := mt.Elem().Underlying().(*types.Struct); isS && st.NumFields() == 0 {
+		return true
+	}
+	return false
 }
